@@ -57,6 +57,37 @@ func (r *responseStorer) StoreResponse(
 	reqTime, respTime time.Time,
 	refIndex int,
 ) error {
+	return r.StoreResponseIf(req, resp, urlKey, refs, reqTime, respTime, refIndex, nil)
+}
+
+// ConditionalResponseStorer is implemented by response storers that can make
+// a store depend on a condition checked in one step with the write.
+type ConditionalResponseStorer interface {
+	// StoreResponseIf is [ResponseStorer.StoreResponse], except that nothing
+	// is written (and [ErrSuperseded] returned) when unchanged reports false
+	// at the moment of writing. A nil unchanged means no condition.
+	StoreResponseIf(
+		req *http.Request,
+		resp *http.Response,
+		urlKey string,
+		refs ResponseRefs,
+		reqTime, respTime time.Time,
+		refIndex int,
+		unchanged func() bool,
+	) error
+}
+
+var _ ConditionalResponseStorer = (*responseStorer)(nil)
+
+func (r *responseStorer) StoreResponseIf(
+	req *http.Request,
+	resp *http.Response,
+	urlKey string,
+	refs ResponseRefs,
+	reqTime, respTime time.Time,
+	refIndex int,
+	unchanged func() bool,
+) error {
 	// Remove hop-by-hop headers as per RFC 9111 §3.1
 	removeHopByHopHeaders(resp)
 
@@ -72,35 +103,39 @@ func (r *responseStorer) StoreResponse(
 		ReceivedAt:  respTime,
 		ID:          responseID,
 	}
-	if err := r.cache.Set(responseID, respEntry); err != nil {
-		// Nothing was stored (e.g. the body could not be read completely): do
-		// not leave a reference to it in the index.
-		return err
-	}
-
 	refEntry := &ResponseRef{
 		Vary:         vary,
 		VaryResolved: varyResolved,
 		ReceivedAt:   respEntry.DateHeader(),
 		ResponseID:   responseID,
 	}
-	if updater, ok := r.cache.(RefsUpdater); ok {
+	if committer, ok := r.cache.(Committer); ok {
 		// The caller looked the index up before it contacted the origin; other
-		// requests may have changed it since. Apply the change to the index
-		// as it is now, finding the reference to replace by its response id.
+		// requests may have changed it since. The entry and the index change
+		// in one step, the index as it is then, and the reference to replace
+		// is found by its response id.
 		replaceID := ""
 		if refIndex >= 0 && refIndex < len(refs) && refs[refIndex] != nil {
 			replaceID = refs[refIndex].ResponseID
 		}
-		return updater.UpdateRefs(urlKey, func(current ResponseRefs) ResponseRefs {
-			index := -1
-			if replaceID != "" {
-				index = slices.IndexFunc(current, func(ref *ResponseRef) bool {
-					return ref != nil && ref.ResponseID == replaceID
-				})
-			}
-			return upsertRef(current, refEntry, index)
-		})
+		return committer.Commit(responseID, respEntry, urlKey, unchanged,
+			func(current ResponseRefs) ResponseRefs {
+				index := -1
+				if replaceID != "" {
+					index = slices.IndexFunc(current, func(ref *ResponseRef) bool {
+						return ref != nil && ref.ResponseID == replaceID
+					})
+				}
+				return upsertRef(current, refEntry, index)
+			})
+	}
+	if unchanged != nil && !unchanged() {
+		return ErrSuperseded
+	}
+	if err := r.cache.Set(responseID, respEntry); err != nil {
+		// Nothing was stored (e.g. the body could not be read completely): do
+		// not leave a reference to it in the index.
+		return err
 	}
 	return r.cache.SetRefs(urlKey, upsertRef(refs, refEntry, refIndex))
 }
